@@ -29,6 +29,11 @@ struct Bh {
     /// configured duration. tokio's timers fire at the next millisecond boundary, so the
     /// rejection is still due at first poll + max_wait (in whole ms).
     shave_us: u64,
+    /// every caller goes through the one original handle instead of a clone of its own
+    /// (nothing else keeps the bulkhead's shared state alive between calls)
+    single_handle: bool,
+    /// time grid of the explorer (ms): 10, or 1010 for the seconds-range configuration
+    grid: u64,
 }
 
 struct X {
@@ -51,10 +56,16 @@ fn queued(w: &World) -> Vec<usize> {
     (0..w.callers.len()).filter(|&c| w.callers[c].is_live() && w.callers[c].polls > 0 && !has_inner(w, c)).collect()
 }
 
-fn do_arrive(w: &mut World, svc: &Svc, c: usize) {
-    let mut s = svc.clone();
+fn do_arrive(w: &mut World, svc: &mut Svc, c: usize, single_handle: bool) {
+    let mut own;
+    let s: &mut Svc = if single_handle {
+        svc
+    } else {
+        own = svc.clone();
+        &mut own
+    };
     let req = Req::new(c as u32, 0);
-    match drive_ready::<_, Req>(&mut s, 4) {
+    match drive_ready::<_, Req>(s, 4) {
         Ok(Ok(())) => {}
         other => panic!("bulkhead poll_ready not ready: {:?}", other.map(|r| r.is_ok())),
     }
@@ -76,13 +87,16 @@ impl Scenario for Bh {
         self.prop
     }
     fn label(&self) -> String {
-        format!("bulkhead max={} max_wait={:?} callers={}{}{}", self.max, self.max_wait, self.callers, if self.late_ticks > 0 { " late-polls" } else { "" }, if self.shave_us > 0 { format!(" minus {}us", self.shave_us) } else { String::new() })
+        format!("bulkhead max={} max_wait={:?} callers={}{}{}", self.max, self.max_wait, self.callers, if self.late_ticks > 0 { " late-polls" } else { "" }, if self.shave_us > 0 { format!(" minus {}us", self.shave_us) } else if self.single_handle { " one-handle".to_string() } else { String::new() })
     }
     fn callers(&self) -> usize {
         self.callers
     }
     fn late_ticks(&self) -> usize {
         self.late_ticks
+    }
+    fn grid_ms(&self) -> u64 {
+        self.grid
     }
     fn init(&self, w: &mut World) -> X {
         let mut b = BulkheadLayer::builder().max_concurrent_calls(self.max);
@@ -96,7 +110,7 @@ impl Scenario for Bh {
         X { svc, first_poll_pre: None, w_release_and_timeout: false, completes_at: vec![] }
     }
     fn arrive(&self, w: &mut World, x: &mut X, c: usize, _v: u8) {
-        do_arrive(w, &x.svc, c);
+        do_arrive(w, &mut x.svc, c, self.single_handle);
     }
     fn outs(&self) -> Vec<Out> {
         vec![Out::Ok, Out::Err(0), Out::Panic]
@@ -252,7 +266,7 @@ impl Scenario for Bh {
             let c = w.add_caller();
             debug_assert_eq!(c, base + i);
             w.begin_step();
-            do_arrive(w, &x.svc, c);
+            do_arrive(w, &mut x.svc, c, self.single_handle);
             w.poll_caller(c);
             started.push(has_inner(w, c));
         }
@@ -297,19 +311,28 @@ fn configs(prop: &'static str, tier: Tier) -> Vec<Bh> {
                 max_panics: 1,
                 late_ticks: 0,
                 shave_us: 0,
+                single_handle: false,
+                grid: 10,
             });
         }
     }
+    // a wait in the seconds range (2.02 s, explored on a 1.01 s grid): whole seconds plus a
+    // sub-second part
+    v.push(Bh { prop, max: 1, max_wait: Some(2020), callers: 3, max_ticks: tier.pick(3, 4), max_drops: 1, max_panics: 0, late_ticks: 0, shave_us: 0, single_handle: false, grid: 1010 });
+    // all callers through the one original handle (no clone alive between calls)
+    for max_wait in [None, Some(20u64)] {
+        v.push(Bh { prop, max: 1, max_wait, callers: 3, max_ticks: tier.pick(3, 4), max_drops: 1, max_panics: 0, late_ticks: 0, shave_us: 0, single_handle: true, grid: 10 });
+    }
     // waits with a sub-millisecond part: 0.5 ms and 19.75 ms
     for (max_wait, shave_us) in [(1u64, 500u64), (20, 250)] {
-        v.push(Bh { prop, max: 1, max_wait: Some(max_wait), callers: 3, max_ticks: tier.pick(3, 4), max_drops: 1, max_panics: 0, late_ticks: 0, shave_us });
+        v.push(Bh { prop, max: 1, max_wait: Some(max_wait), callers: 3, max_ticks: tier.pick(3, 4), max_drops: 1, max_panics: 0, late_ticks: 0, shave_us, single_handle: false, grid: 10 });
     }
     // a late executor: woken callers (permit handed over, wait deadline passed) are polled up to two ticks late
     for (max, max_wait) in [(1usize, Some(20u64)), (1, None), (2, Some(20))] {
         if tier == Tier::Quick && max == 2 {
             continue;
         }
-        v.push(Bh { prop, max, max_wait, callers: 3, max_ticks: tier.pick(4, 5), max_drops: tier.pick(1, 2), max_panics: tier.pick(0, 1), late_ticks: 2, shave_us: 0 });
+        v.push(Bh { prop, max, max_wait, callers: 3, max_ticks: tier.pick(4, 5), max_drops: tier.pick(1, 2), max_panics: tier.pick(0, 1), late_ticks: 2, shave_us: 0, single_handle: false, grid: 10 });
     }
     v
 }
